@@ -516,7 +516,24 @@ func c02handlers(c *Ctx, p *Prog) {
 				if call, ok := in.(*ssa.Call); ok {
 					cc := call.Common()
 					if !cc.IsInvoke() && p.Callee(call) == nil {
-						if _, isB := cc.Value.(*ssa.Builtin); !isB && strings.HasSuffix(p.Sym(cc.Value).String(), ".opts.Handle") {
+						// the function value may have been handed down as an argument (process(item, handle, release))
+						fv, _ := fr.Resolve(cc.Value)
+						if fe, isGoArg := goEntryArg(p, fn, fv); isGoArg {
+							fv = fe // ... or to the goroutine with the go statement
+						}
+						if mc, isMC := fv.(*ssa.MakeClosure); isMC {
+							if bf, isF := mc.Fn.(*ssa.Function); isF && strings.HasSuffix(bf.Name(), "Release$bound") && st != "stop" && len(cc.Args) == 1 {
+								releases++
+								if st != "handled" {
+									problem("release at %s in state %q (must follow Handle exactly once)", p.InstrPos(call), st)
+								}
+								if !fieldOfItem(fr, cc.Args[0], "Priority") {
+									problem("release at %s does not pass the received item's Priority", p.InstrPos(call))
+								}
+								return []string{"none"}
+							}
+						}
+						if _, isB := cc.Value.(*ssa.Builtin); !isB && strings.HasSuffix(p.Sym(fv).String(), ".opts.Handle") {
 							handles++
 							if st != "have" {
 								problem("Handle called at %s in state %q (not exactly once per item)", p.InstrPos(in), st)
@@ -597,4 +614,26 @@ func c02handlers(c *Ctx, p *Prog) {
 			r.Check(len(problems) == 0, "X7", p.FnKey(fn), p.Pos(fn.Pos()), "receive -> Handle(item) -> release(priority), each exactly once per item", strings.Join(problems, "; "))
 		}
 	}
+}
+
+// goEntryArg: v is a parameter of the goroutine entry fn; returns the argument every go statement
+// that starts fn passes for it (when they agree).
+func goEntryArg(p *Prog, fn *ssa.Function, v ssa.Value) (ssa.Value, bool) {
+	par, ok := v.(*ssa.Parameter)
+	if !ok || par.Parent() != fn {
+		return nil, false
+	}
+	idx := paramIndex(fn, par)
+	var found ssa.Value
+	for _, g := range p.GoStmts() {
+		if p.Callee(g) != fn || idx < 0 || idx >= len(g.Call.Args) {
+			continue
+		}
+		a := g.Call.Args[idx]
+		if found != nil && p.Sym(found).String() != p.Sym(a).String() {
+			return nil, false
+		}
+		found = a
+	}
+	return found, found != nil
 }
